@@ -35,6 +35,9 @@ STR_BOUNDARY = [
     "", "\x00", "a", "\x7f", "\x80", "\u07ff", "\u0800", "\ud7ff", "\ue000", "\uffff", "\U00010000",
     "\U0010ffff", "a\x00b", "\n", "\r\n", "L", "123L", "\xe9", "\xff\xfe", "\u65e5\u672c\u8a9e",
     "\U0001d11e\U0001d11e", " ", "Q", "N\x00\x00\x00\x01", "'\"\\",
+    # characters a codec or a text layer may treat specially at the start or end of a string
+    "\ufeff", "\ufeffname", "name\ufeff", "\ufeff\ufeff", "\ufffe", "\u2028", "\u2029x", "\x85", "\x1a", "\tx", "x\t", " x ", "x\n", "\nx", "\r",
+    "e\u0301", "\u00e9", "\u212b", "\ufb01",  # normalisation pairs: equal only after NFC/NFKC, which nobody asked for
 ]
 
 BYTES_BOUNDARY = [b"", b"\x00", b"Q", bytes(range(256)), b"\xff" * 3, b"N\x00\x00\x00\x01a", b"\x02Q"]
@@ -164,6 +167,8 @@ class Gen:
             return r.choice(STR_BOUNDARY)
         n = r.choice((1, 2, 3, 5, 17, 100)) if k < 0.95 else r.randint(min(200, self.max_bytes), self.max_bytes)
         out = []
+        if r.random() < 0.08:
+            out.append(r.choice("\ufeff\ufffe\u2028\x00\t \n"))  # a special first character
         for _ in range(n):
             p = r.random()
             if p < 0.5:
